@@ -3,11 +3,11 @@
 import json, sys, os, subprocess
 pid = sys.argv[1]
 base = subprocess.run(["python3","/verif/tools/agent_prompt.py",pid],capture_output=True,text=True).stdout
-base = base.replace(f"/tmp/wt/{pid}", f"/tmp/wt4/{pid}").replace(f"/tmp/wt-out/{pid}", f"/tmp/wt4-out/{pid}")
+base = base.replace(f"/tmp/wt/{pid}", f"/tmp/wt5/{pid}").replace(f"/tmp/wt-out/{pid}", f"/tmp/wt5-out/{pid}")
 known=[]
 for d in sorted(os.listdir('/verif/seeded')):
     m=json.load(open(f'/verif/seeded/{d}/meta.json'))
     if m['property']==pid:
         known.append("  - "+m['needs_to_manifest'])
-extra = "\n\nSeveral seeded changes for this property have already been collected by someone else; yours must be DIFFERENT from them in mechanism and in what they need to manifest (do not re-do these):\n" + "\n".join(known) + "\n\nAim for subtle defects: a different module or layer than the obvious one, state that only goes wrong after a particular history, values at a boundary, interactions between two features (for example DTD declarations with namespaces, entities with attributes, edits followed by queries, the raw and the merged-text DOM views). The code base has some pre-existing deviations from the property; make sure your demonstration passes on the unmodified worktree.\n"
+extra = "\n\nSeveral seeded changes for this property have already been collected by someone else; yours must be DIFFERENT from them in mechanism and in what they need to manifest (do not re-do these):\n" + "\n".join(known) + "\n\nAim for subtle defects: a different module or layer than the obvious one, state that only goes wrong after a particular history, values at a boundary, interactions between two features (for example DTD declarations with namespaces, entities with attributes, edits followed by queries, the raw and the merged-text DOM views). The code base has some pre-existing deviations from the property; make sure your demonstration passes on the unmodified worktree. NEVER use `git stash` (the stash is shared by all worktrees of this repository and other people are working in sibling worktrees): keep your change with `git diff > file`, reset with `git checkout -- .`, re-apply with `git apply file`.\n"
 print(base.rstrip()+extra)
